@@ -1,8 +1,10 @@
 SPECIFICATION Spec
 CONSTANTS
+  BeginOnce = TRUE
+  UnorderedDst = {"1:c:s"}
   MaxIdx = 2
   Timeouts = {0, 1, 2}
-  MaxH = 6
+  MaxH = 5
 INVARIANTS C06_NoLateBegin Inv_C05_SuccessOnlyIfAll Inv_C05_NeverSuccessAfterFailure Inv_C05_AllChildrenFail Inv_C02_ReceiptAfterRequest
 PROPERTIES C04_Step C04_FinalStable C06_FiresAt
 CHECK_DEADLOCK FALSE
